@@ -1272,7 +1272,9 @@ std::string importeeModelUrl(const History &history, const std::string &url)
 bool checkForImportCycles(const History &history, const HistoryEpochPtr &h)
 {
     return std::any_of(history.begin(), history.end(), [h](const auto &entry) {
-        return ((h->mDestinationUrl == entry->mSourceUrl) || ((entry->mSourceUrl == ORIGIN_MODEL_REF) && (entry->mSourceModel != nullptr) && (entry->mSourceModel->equals(h->mDestinationModel))));
+        // The very same import element met again on the way (same model object, kind and name) closes a cycle whatever the URLs say.
+        bool sameImportElement = (entry->mSourceModel != nullptr) && (entry->mSourceModel == h->mSourceModel) && (entry->mType == h->mType) && (entry->mName == h->mName);
+        return (sameImportElement || (h->mDestinationUrl == entry->mSourceUrl) || ((entry->mSourceUrl == ORIGIN_MODEL_REF) && (entry->mSourceModel != nullptr) && (entry->mSourceModel->equals(h->mDestinationModel))));
     });
 }
 
